@@ -1702,7 +1702,7 @@ def check_C09(tier, seed, replay=None):
 
     def gen_flags(pk):
         names = [g.sname() for g in pk] + [g.rname(k) for g in pk for k in protected[g.gi]]
-        if pk[0].gi % 2 == 0:          # the flag may be repeated: every occurrence adds rules
+        if pk[0].gi % 300 == 1:        # (every other pack) the flag may be repeated: every occurrence adds rules
             third = max(1, len(names) // 3)
             return ["-alternate-entrypoints", ",".join(names[:third]), "-alternate-entrypoints", ",".join(names[third:2 * third]) or names[0],
                     "-alternate-entrypoints", ",".join(names[2 * third:]) or names[0]]
